@@ -1,5 +1,5 @@
 """C04 - task-level failures are contained to their own future."""
-from .base import Prop, V, gen_knobs, gen_model, gen_task, submit_op, hang_violations, fut_state
+from .base import focus_hot, Prop, V, gen_knobs, gen_model, gen_task, submit_op, hang_violations, fut_state
 from . import execfam as X
 
 FAULTY = ["raise", "raise", "bad_arg", "bad_arg", "bad_result", "slow_arg"]
@@ -35,7 +35,7 @@ def gen(rng, tier):
     main.append({"op": "result", "f": 8000})
     main.append({"op": "shutdown", "ex": "A", "wait": rng.random() < 0.7})
     main.append({"op": "wait_all", "which": "all"})
-    return dict(family="containment", knobs=gen_knobs(rng, tier), model=gen_model(rng), threads=threads, faults=[])
+    return dict(family="containment", knobs=focus_hot(rng, gen_knobs(rng, tier), threads), model=gen_model(rng), threads=threads, faults=[])
 
 
 class C04(Prop):
